@@ -112,3 +112,129 @@ Proof. vm_compute. reflexivity. Qed.
 (* the hypothesis [forward] of the theorems is met by both example matchers *)
 Example C07_witness_forward : forward false 5 ex_ltr /\ forward true 5 ex_rtl.
 Proof. split; [exact ex_ltr_forward | exact ex_rtl_forward]. Qed.
+
+(* ---------------- composition: the matcher of a COMPILED PROGRAM satisfies [forward] ----------------
+   (Proofs/ComposeExec.v; no new model.)  The theorems above are over an abstract matcher; here it is built:
+     cx_env_at e ts              the text of e searched with \G bound to ts
+     cx_spec_matcher e fuel root one Spec.attempt, read as (group 0 index, group 0 length, textpos)
+     cx_vm_matcher e p L vfuel   one execute() call of the interpreter on program p under stack limit L, read
+                                 through match.go's matchIndex(0) / matchLength(0) and Runtextpos; None when
+                                 the call does not return or returns without a match
+   [forward] follows from C04's length analysis (shape_ok rtl root: a direction-rtl tree ends at or after /
+   before its start, inside the text), C08's group-0-is-the-match-span (no_group0 body) and, for the
+   interpreter, C01_compile_correct2_exec_partial.
+   Residual hypotheses.  Reference level: none beyond shape_ok (recomputed on every exported tree by leg
+   c04-analysis) and no_group0 (no node of the body captures into or balances group 0: the parser reserves
+   group 0 for the root capture).  Interpreter level: those of C01_compile_correct2_exec_partial on the program, and
+   "Spec.attempt terminates within the engine's counter range at every in-range position, for every \G"
+   (last hypothesis).  Not claimed: that an execute() call returns (a call that runs out of fuel or hits the
+   stack limit is read as "no match at this position" by cx_vm_matcher). *)
+From Verif Require Import Model.Tree Model.Spec Model.VM Model.Writer Model.Analysis Proofs.SpecBoundsProofs
+  Proofs.CompileDefs Proofs.CompileBalDefs Proofs.ComposeExec.
+
+Theorem C07_spec_matcher_is_forward :
+  forall (e : env) (rtl : bool) fuel o body,
+  let root := NCapture o 0 (-1) body in
+  shape_ok rtl root = true -> no_group0 body ->
+  forward rtl (tlen e) (cx_spec_matcher e fuel root).
+Proof. exact cx_spec_forward. Qed.
+Print Assumptions C07_spec_matcher_is_forward.
+
+Theorem C07_compiled_matcher_is_forward :
+  forall (e : env) (p : program) (rtl : bool), 0 <= trackcount p -> tlen e <= INF ->
+  forall L vfuel o body,
+  let root := NCapture o 0 (-1) body in
+  codes p = fst (compile cfg0 root) -> strings p = snd (compile cfg0 root) ->
+  supported2 root = true -> groups_ok2 (capsize p) root ->
+  shape_ok rtl root = true -> no_group0 body ->
+  (forall ts t0, 0 <= t0 <= tlen e ->
+     exists fuel r, Z.of_nat fuel <= INF /\ Spec.attempt (cx_env_at e ts) fuel root t0 = Ok r) ->
+  forward rtl (tlen e) (cx_vm_matcher e p L vfuel).
+Proof. exact cx_vm_forward. Qed.
+Print Assumptions C07_compiled_matcher_is_forward.
+
+(* C07_iteration_bound_and_order / C07_next_advances for the reference search ... *)
+Theorem C07_iteration_for_spec_search :
+  forall (e : env) (rtl : bool) fuel o body,
+  let root := NCapture o 0 (-1) body in
+  shape_ok rtl root = true -> no_group0 body ->
+  forall start, 0 <= start <= tlen e ->
+  exists ms, Iter.iteration rtl (tlen e) (cx_spec_matcher e fuel root)
+               (Iter.dflt_fuel (tlen e)) (Iter.dflt_fuel (tlen e)) start = Ok ms /\
+             Z.of_nat (length ms) <= tlen e + 1 /\
+             Forall (wfm rtl (tlen e)) ms /\
+             forall a b, consecutive ms a b -> follows rtl a b.
+Proof. exact cx_iteration_for_spec_search. Qed.
+Print Assumptions C07_iteration_for_spec_search.
+
+Theorem C07_next_advances_for_spec_search :
+  forall (e : env) (rtl : bool) fuel o body,
+  let root := NCapture o 0 (-1) body in
+  shape_ok rtl root = true -> no_group0 body ->
+  forall m, wfm rtl (tlen e) m ->
+  exists r, Iter.find_next_match rtl (tlen e) (cx_spec_matcher e fuel root) (Iter.dflt_fuel (tlen e)) m = Ok r /\
+            forall m', r = Some m' -> wfm rtl (tlen e) m' /\ follows rtl m m'.
+Proof. exact cx_next_advances_for_spec_search. Qed.
+Print Assumptions C07_next_advances_for_spec_search.
+
+(* ... and for the interpreter running a compiled program, under any stack limit and any interpreter fuel:
+   the loop "m := FindRunesMatchStartingAt(start); for m != nil { m = FindNextMatch(m) }" is never out of
+   (loop) fuel, yields at most len+1 matches, all well-formed, every consecutive pair ordered and disjoint *)
+Theorem C07_iteration_for_compiled_programs :
+  forall (e : env) (p : program) (rtl : bool), 0 <= trackcount p -> tlen e <= INF ->
+  forall L vfuel o body,
+  let root := NCapture o 0 (-1) body in
+  codes p = fst (compile cfg0 root) -> strings p = snd (compile cfg0 root) ->
+  supported2 root = true -> groups_ok2 (capsize p) root ->
+  shape_ok rtl root = true -> no_group0 body ->
+  (forall ts t0, 0 <= t0 <= tlen e ->
+     exists fuel r, Z.of_nat fuel <= INF /\ Spec.attempt (cx_env_at e ts) fuel root t0 = Ok r) ->
+  forall start, 0 <= start <= tlen e ->
+  exists ms, Iter.iteration rtl (tlen e) (cx_vm_matcher e p L vfuel)
+               (Iter.dflt_fuel (tlen e)) (Iter.dflt_fuel (tlen e)) start = Ok ms /\
+             Z.of_nat (length ms) <= tlen e + 1 /\
+             Forall (wfm rtl (tlen e)) ms /\
+             forall a b, consecutive ms a b -> follows rtl a b.
+Proof. exact cx_iteration_for_compiled_programs. Qed.
+Print Assumptions C07_iteration_for_compiled_programs.
+
+Theorem C07_next_advances_for_compiled_programs :
+  forall (e : env) (p : program) (rtl : bool), 0 <= trackcount p -> tlen e <= INF ->
+  forall L vfuel o body,
+  let root := NCapture o 0 (-1) body in
+  codes p = fst (compile cfg0 root) -> strings p = snd (compile cfg0 root) ->
+  supported2 root = true -> groups_ok2 (capsize p) root ->
+  shape_ok rtl root = true -> no_group0 body ->
+  (forall ts t0, 0 <= t0 <= tlen e ->
+     exists fuel r, Z.of_nat fuel <= INF /\ Spec.attempt (cx_env_at e ts) fuel root t0 = Ok r) ->
+  forall m, wfm rtl (tlen e) m ->
+  exists r, Iter.find_next_match rtl (tlen e) (cx_vm_matcher e p L vfuel) (Iter.dflt_fuel (tlen e)) m = Ok r /\
+            forall m', r = Some m' -> wfm rtl (tlen e) m' /\ follows rtl m m'.
+Proof. exact cx_next_advances_for_compiled_programs. Qed.
+Print Assumptions C07_next_advances_for_compiled_programs.
+
+(* non-vacuity: the a^n b^n program with balancing groups on "aabb": shape_ok, no_group0 and the termination
+   hypothesis hold, and iterating either matcher from 0 yields the single match [0,4) *)
+Example C07_compiled_witness := cx_iter_demo.
+
+(* ... and C07_fresh_search_is_starting_at with [no_G] discharged: Spec.sem reads the scan start only through
+   a \G anchor (C02_attempt_does_not_read_start), so for a tree without \G ([ce_no_start], equivalently a
+   program without a Start opcode: C02_has_opcode_start_is_tree_has_start_anchor) FindNextMatch's independent
+   search is FindRunesMatchStartingAt at the reference level.  (At the interpreter level no_G is not proved:
+   compile_correct says what execute() returns WHEN it returns, not that returning is independent of \G.) *)
+From Verif Require Import Proofs.ComposeEntry Proofs.ComposeIter.
+
+Theorem C07_spec_matcher_ignores_start :
+  forall (e : env) (fuel : nat) (root : node),
+    ce_no_start root = true -> no_G (cx_spec_matcher e fuel root).
+Proof. exact cit_spec_matcher_no_G. Qed.
+Print Assumptions C07_spec_matcher_ignores_start.
+
+Theorem C07_fresh_search_is_starting_at_for_spec_search :
+  forall (e : env) (fuel : nat) (root : node) (rtl : bool),
+    ce_no_start root = true ->
+    forall lfuel ts pos, 0 <= pos ->
+      Iter.search_from rtl (tlen e) (cx_spec_matcher e fuel root) lfuel ts pos =
+      Iter.find_runes_match_starting_at rtl (tlen e) (cx_spec_matcher e fuel root) lfuel pos.
+Proof. exact cit_fresh_search_is_starting_at. Qed.
+Print Assumptions C07_fresh_search_is_starting_at_for_spec_search.
